@@ -154,14 +154,19 @@ Print Assumptions gro_members_csum_valid.
 (* ------------------------------------------------ the NS/AE flag (bit 0 of TCP byte 12) *)
 (* the header of a coalesced TCP buffer is the header of one of its members, as far as byte 12 goes *)
 Definition item_n (inp : list buf) (tcp : bool) (it : item) (P : list N) (mem : list N) : Prop :=
-  tcp = true -> exists m, In m mem /\ byte_at P (it_iph it + 12) = byte_at (b_pkt (get_buf inp m)) (it_iph it + 12).
+  tcp = true ->
+  (exists m, In m mem /\ byte_at P (it_iph it + 12) = byte_at (b_pkt (get_buf inp m)) (it_iph it + 12)) /\
+  (forall m, In m mem -> byte_at (b_pkt (get_buf inp m)) (it_iph it + 12) mod 16 = 0).
 Definition item_ok6 (inp : list buf) (capsb : Prop) (tcp : bool) (it : item) (P : list N) (mem : list N) : Prop :=
   item_ok3 inp capsb tcp it P mem /\ item_n inp tcp it P mem.
 
 Lemma fresh_item_ok6 inp (capsb : Prop) tcp pkt k v6 new :
   fresh_item tcp pkt k v6 new -> pkt = b_pkt (get_buf inp k) -> item_ok6 inp capsb tcp new pkt [k].
 Proof.
-  intros Hf Hp. split; [eapply fresh_item_ok3; eauto|]. intros _. exists k. split; [left; reflexivity|]. rewrite <- Hp. reflexivity.
+  intros Hf Hp. split; [eapply fresh_item_ok3; eauto|]. intros ->.
+  destruct Hf as [_ [_ [_ [_ [_ [_ [_ [_ [_ [_ [_ Htf]]]]]]]]]]]. destruct (Htf eq_refl) as [_ [_ [_ Hnib]]].
+  split; [exists k; split; [left; reflexivity|rewrite <- Hp; reflexivity]|].
+  intros m [<-|[]]. rewrite <- Hp. exact Hnib.
 Qed.
 
 Lemma merge_item_ok6 inp off (capsb : Prop) tcp pkt k v6 p it it' bufs bufs' mem :
@@ -173,17 +178,18 @@ Lemma merge_item_ok6 inp off (capsb : Prop) tcp pkt k v6 p it it' bufs bufs' mem
   item_ok6 inp capsb tcp it' (b_pkt (get_buf bufs' (it_idx it))) (if p then k :: mem else mem ++ [k]).
 Proof.
   intros HC Hmo Hpk Hbk Hne Hlt [Hok3 Hn].
-  split; [eapply merge_item_ok3; eauto|]. intros ->. specialize (Hn eq_refl). destruct Hn as [m0 [Hm0 Em0]].
+  split; [eapply merge_item_ok3; eauto|]. intros ->. specialize (Hn eq_refl). destruct Hn as [[m0 [Hm0 Em0]] Hz].
   destruct Hok3 as [[[Hhl [Hg1 [Hiph [Hhd [Htc _]]]]] _] _].
   destruct Hmo as [new [Hf [Hk2 [mode [Hp [Hmode [Hcan Hco]]]]]]].
   pose proof (merge_iph _ _ _ _ _ _ Hf Hk2 Hiph Hhd) as Hi.
-  destruct Hf as [_ [_ [_ [_ [Hft [Hfl0 _]]]]]].
+  destruct Hf as [_ [_ [_ [_ [Hft [Hfl0 [_ [_ [_ [_ [_ Htf]]]]]]]]]]]. destruct (Htf eq_refl) as [_ [_ [_ Hnib]]]. rewrite <- Hi in Hnib.
   destruct (coalesce_tcp_success _ _ _ _ _ _ _ _ _ _ _ _ Hco) as [[_ [_ [_ [Sip _]]]] [Hb' _]].
   rewrite Sip. set (P := b_pkt (get_buf bufs (it_idx it))) in *. unfold hl_of in Hhl.
   set (iph := it_iph it) in *. set (tcph := it_tcph it) in *.
   destruct mode; [contradiction| |]; cbn [is_prepend] in *; subst p.
   - rewrite Hb'. unfold tcp_merge_bufs. cbn [is_prepend]. rewrite get_set_buf_same by exact Hlt. cbn [with_pkt b_pkt]. fold P. fold iph tcph.
     change FLAGS_OFF with 13.
+    split; [|intros m Hm; apply in_app_or in Hm as [Hm|[<-|[]]]; [apply Hz; exact Hm|rewrite <- Hpk; exact Hnib]].
     exists m0. split; [apply in_or_app; left; exact Hm0|]. rewrite <- Em0.
     assert (Hfo : iph + 13 + 1 <= len P) by (clear - Hhl Htc; lia).
     destruct (it_psh new).
@@ -193,6 +199,7 @@ Proof.
   - rewrite Hb'. unfold tcp_merge_bufs. cbn [is_prepend].
     rewrite get_set_buf_same by (rewrite set_buf_length; exact Hlt). cbn [with_pkt b_pkt]. fold P. fold iph tcph.
     change FLAGS_OFF with 13.
+    split; [|intros m [<-|Hm]; [rewrite <- Hpk; exact Hnib|apply Hz; exact Hm]].
     exists k. split; [left; reflexivity|]. rewrite <- Hpk.
     assert (Hfo : iph + 13 + 1 <= len pkt) by (clear - Hfl0 Hft Hi; unfold iph; lia).
     destruct (it_psh it).
@@ -238,23 +245,25 @@ Proof.
   intros H. contradiction H. reflexivity.
 Qed.
 
-(* all TCP segments of the batch carry the same NS/AE flag *)
-Definition ns_agree (inp : list buf) : Prop :=
-  forall a b, In a inp -> In b inp -> tcpish (b_pkt a) = true -> tcpish (b_pkt b) = true -> nsbit (b_pkt a) = nsbit (b_pkt b).
+Lemma mod16_mod2 x : x mod 16 = 0 -> x mod 2 = 0.
+Proof.
+  intros H. pose proof (N.div_mod x 16 ltac:(lia)) as D. rewrite H, N.add_0_r in D.
+  rewrite D. replace (16 * (x / 16)) with ((8 * (x / 16)) * 2) by lia. apply N.mod_mul. lia.
+Qed.
 
-(* Per coalesced buffer: every datagram the kernel makes of it and every member carries one and the same bit. *)
+(* Per coalesced buffer: the flag is clear on every datagram the kernel makes of it and on every member
+   (a segment with a non-zero low nibble in TCP byte 12 is never a candidate). *)
 Theorem gro_ns_kept : forall (canUDP : bool) (offset : N) (bufs : list buf) (j : N),
-  ns_agree bufs ->
   let s := handle_gro canUDP offset bufs in
   s_err s = false -> merged_into (s_trace s) j ->
   let b := get_buf (s_bufs s) j in
-  exists c, (forall p, In p (kernel_segment (b_hdr b) (b_pkt b)) -> nsbit p = c) /\
-            (forall m, In m (members (s_trace s) j) -> nsbit (b_pkt (get_buf bufs m)) = c).
+  (forall p, In p (kernel_segment (b_hdr b) (b_pkt b)) -> nsbit p = 0) /\
+  (forall m, In m (members (s_trace s) j) -> nsbit (b_pkt (get_buf bufs m)) = 0).
 Proof.
-  intros udp off inp j Hns s He Hmj b.
+  intros udp off inp j s He Hmj b.
   destruct (N.eq_dec (v_gso (dec_vhdr (b_hdr b))) GSO_UDP_L4) as [Eu|Eu].
   - (* UDP: the bit is not read *)
-    exists 0. destruct (gro_udp_segments_eligible udp off inp j He Hmj Eu) as [Hel Hfl]. fold s b in Hel, Hfl. split.
+    destruct (gro_udp_segments_eligible udp off inp j He Hmj Eu) as [Hel Hfl]. fold s b in Hel, Hfl. split.
     + intros p Hp. apply nsbit_not_tcpish. apply no_udp_flow_not_tcpish_or.
       assert (Hx : In (Check.udp_eligible p, mkey p) (map (fun m => (true, mkey (pk inp m))) (members (s_trace s) j))).
       { rewrite <- Hel. apply (in_map (fun p => (Check.udp_eligible p, mkey p))). exact Hp. }
@@ -273,6 +282,7 @@ Proof.
     destruct (i_items _ _ _ I it Hint) as [Htw _].
     destruct (IQ tcp it Hin) as [[[[Hhl [Hg1 [Hiph [Hhd [Htc [Hmz [Hml Hch]]]]]]] [Hhf Hlen]] _] Htt].
     destruct (IN tcp it Hin) as [_ Hn].
+    destruct (i_bounds _ I3 tcp it Hin) as [Bg Bh].
     pose proof (members_length_merged _ _ Hmj) as Hlen2.
     rewrite Hidx in *.
     assert (Hmpos : 0 < it_merged it) by (unfold len in Hml; lia).
@@ -295,7 +305,7 @@ Proof.
     intros Hnudp. rewrite Hdec0 in Hnudp.
     destruct tcp; [|exfalso; apply Hnudp; reflexivity]. clear Hnudp Hdec0.
     destruct (Htt Logic.I eq_refl) as [_ [_ [_ [_ [_ [Hag _]]]]]].
-    destruct (Hn eq_refl) as [m0 [Hm0 Em0]].
+    destruct (Hn eq_refl) as [[m0 [Hm0 Em0]] Hz].
     pose proof (acc_buf_bytes true it B Hmpos Hiph Htc Hhl Hlen) as Hb. cbn zeta in Hb. fold P in Hb, Hl, Hd.
     pose proof (acc_buf_tcp_bytes it B Hmpos Hiph Htc Hhl Hlen) as HbF. fold P in HbF.
     set (F := b_pkt (acc_buf true it B)) in *.
@@ -315,13 +325,7 @@ Proof.
       assert (Hfm : hdr_facts true v6 tcph (b_pkt (get_buf inp m))).
       { eapply (hdr_facts_tagree v6 tcph (iph + tcph)); [|exact G1|exact Hhf]. clear - Htc Hiph. rewrite Hiph. lia. }
       rewrite Hiph. apply (nsbit_facts v6 tcph); [exact Hfm|]. clear - G2 Htc Hiph. rewrite Hiph in G2. lia. }
-    assert (Hbnd : forall m, In m (members (s_trace s0) j) -> In (get_buf inp m) inp).
-    { intros m Hm. unfold get_buf. apply nth_In.
-      pose proof (members_partition (s_trace s0)) as _.
-      apply members_spec in Hm as [->|[q [_ Hq]]].
-      - rewrite (i_len _ _ _ I) in Hjlt. exact Hjlt.
-      - rewrite (i_tr _ _ _ I) in Hq. exact Hq. }
-    exists (nsbit (b_pkt (get_buf inp m0))). split.
+    split.
     + (* a segment carries byte 12 of the buffer = byte 12 of member m0 *)
       assert (Hgt : it_gso it < len P - (iph + tcph)).
       { rewrite <- len_drop. apply chunks_two; [exact Hg1|]. rewrite Hch, map_length. exact Hlen2. }
@@ -345,16 +349,19 @@ Proof.
               v_cstart := if v6 then 40 else 20; v_coff := 16 |}
            F (len F - (if v6 then 40 else 20)) i seg lst eq_refl eq_refl eq_refl Htc HhF ltac:(rewrite Hl, <- Hiph; exact Hhl)) as [Ls [_ [Hq _]]].
       set (sg := build_segment _ true _ _ i seg lst) in *.
+      assert (AsF : tagree v6 ((if v6 then 40 else 20) + tcph) sg F).
+      { refine (conj _ (conj _ _)).
+        - intros q0 Hk Hm. apply Hq; [exact Hk| | | |];
+            (destruct v6; [apply tmasked_false6 in Hm|apply tmasked_false4 in Hm]; lia).
+        - intros Ev. rewrite Hq; [reflexivity|..]; rewrite ?Ev; clear - Htc; lia.
+        - rewrite Hq; [reflexivity|..]; clear - Htc; destruct v6; lia. }
       assert (Hfs : hdr_facts true v6 tcph sg).
-      { destruct HhF as [F1 [F2 [F3 F4]]]. unfold hdr_facts.
-        rewrite !Hq; try (clear - Htc; subst v6 tcph; destruct (it_v6 it); lia).
-        - refine (conj F1 (conj _ (conj F3 F4))). intros Ev. destruct (F2 Ev) as [G1 [G2 G3]].
-          rewrite !Hq; try (clear - Htc Ev; subst v6 tcph; rewrite Ev; lia). auto. }
+      { eapply (hdr_facts_tagree v6 tcph ((if v6 then 40 else 20) + tcph)); [clear - Htc; lia|exact AsF|exact HhF]. }
       destruct (nsbit_facts v6 tcph sg Hfs ltac:(rewrite Ls; clear - Htc; lia)) as [_ ->].
-      destruct (Hmem m0 Hm0) as [_ ->]. rewrite Hiph in Em0 |- *. rewrite <- Em0.
+      apply mod16_mod2. rewrite <- (Hz m0 Hm0). rewrite Hiph in Em0 |- *. rewrite <- Em0.
       rewrite Hq; try (clear - Htc; subst v6 tcph; destruct (it_v6 it); lia).
       f_equal. apply HbF; rewrite Hiph in *; clear - Htc Hhl; subst v6 tcph; destruct (it_v6 it); lia.
-    + intros m Hm. apply Hns; [apply Hbnd; exact Hm|apply Hbnd; exact Hm0|apply (Hmem m Hm)|apply (Hmem m0 Hm0)].
+    + intros m Hm. destruct (Hmem m Hm) as [_ ->]. apply mod16_mod2. apply Hz. exact Hm.
 Qed.
 Print Assumptions gro_ns_kept.
 
@@ -372,14 +379,14 @@ Proof.
               |intros y Hy; apply NS; right; exact Hy|intros y Hy; apply NM; right; exact Hy].
 Qed.
 
-(* Clause 6 holds for every batch whose TCP segments agree on the NS/AE flag. *)
+(* Clause 6 holds for every batch. *)
 Theorem gro_csum_kept : forall (canUDP : bool) (offset : N) (bufs : list buf),
-  bytes_ok bufs -> ns_agree bufs ->
+  bytes_ok bufs ->
   let s := handle_gro canUDP offset bufs in
   s_err s = false ->
   csum_kept_ok bufs (s_tw s) (s_bufs s) = true.
 Proof.
-  intros udp off inp Hbytes Hns s He.
+  intros udp off inp Hbytes s He.
   pose proof (gro_bookkeeping udp off inp He) as [Hlen [Hnd [Hbound Htrace]]]. fold s in Hlen, Hnd, Hbound, Htrace.
   assert (Htw : s_tw s = tw_of (s_trace s) 0).
   { subst s. unfold handle_gro in *. rewrite gro_loop_is in *.
@@ -394,8 +401,8 @@ Proof.
             map canonv (kernel_segment (b_hdr (get_buf (s_bufs s) j)) (b_pkt (get_buf (s_bufs s) j))) =
             map f (members (s_trace s) j)).
   { intros j Hj. destruct (merged_dec (s_trace s) j) as [Hm|Hm].
-    - destruct (gro_ns_kept udp off inp j Hns He Hm) as [c [Hc1 Hc2]]. fold s in Hc1, Hc2.
-      apply (map_canonv (fun m => b_pkt (get_buf inp m)) c); [| | |exact Hc1|exact Hc2].
+    - destruct (gro_ns_kept udp off inp j He Hm) as [Hc1 Hc2]. fold s in Hc1, Hc2.
+      apply (map_canonv (fun m => b_pkt (get_buf inp m)) 0); [| | |exact Hc1|exact Hc2].
       + destruct (N.eq_dec (v_gso (dec_vhdr (b_hdr (get_buf (s_bufs s) j)))) GSO_UDP_L4) as [Eu|Eu].
         * apply (gro_udp_lossless udp off inp j He Hm Eu).
         * apply (gro_tcp_lossless udp off inp j Hbytes He Hm Eu).
